@@ -586,6 +586,57 @@ def edge_cross_contact(rng, a):
     return None
 
 
+def bounding_sphere_contact(rng, a, kb):
+    """a polygon / tetrahedron that touches the polyhedron a only in a's vertex V farthest from its centroid,
+    placed so that V is also ITS vertex farthest from its own centroid and both centroids are collinear with V
+    (the bounding spheres about the vertex centroids are exactly tangent)"""
+    if len(a[1]) not in (4, 8):
+        return None                       # keeps the centroid dyadic
+    c = K.centroid(a[1])
+    V_ = max(a[1], key=lambda v: dot(sub(v, c), sub(v, c)))
+    w = sub(V_, c)
+    far = [v for v in a[1] if dot(sub(v, c), sub(v, c)) == dot(w, w)]
+    cands = [cross(w, e) for e in (V(1, 0, 0), V(0, 1, 0), V(0, 0, 1))]
+    cands = [x for x in cands if nz(x)]
+    if not cands:
+        return None
+    u = _reduce(cands[0])
+    u2 = cross(w, u)
+    s = rng.choice((F(1, 2), F(1), F(1, 4)))
+    uu = mul(u, F(1, 4))
+    # vertices: V, V + 2s w + uu, V + 2s w - uu (centroid V + (4/3) s w; V is the farthest when |uu| is small)
+    pts = [V_, add(V_, add(mul(w, 2 * s), uu)), add(V_, sub(mul(w, 2 * s), uu))]
+    if kb == "PG":
+        b = ("PG", tuple(pts))
+        n = K.polygon_normal(b[1])
+        b = ("PG", tuple(K.hull2d(pts, n)))
+    else:
+        if not nz(u2):
+            return None
+        # tetrahedron with centroid on the ray: V, V + (8/3) s w +- ..., kept simple: four points symmetric about the ray
+        q = _reduce(u2)
+        pts = [V_, add(V_, add(mul(w, 2 * s), uu)), add(V_, sub(mul(w, 2 * s), uu)), add(V_, add(mul(w, 2 * s), mul(q, F(1, 4)))),
+               add(V_, sub(mul(w, 2 * s), mul(q, F(1, 4))))]
+        b = K.hull3d(pts)
+    if b is None or not ok_coords(b, 64, 40):
+        return None
+    return b
+
+
+def split_face(rng, ph):
+    """the same body with one face (>= 4 vertices) given as two coplanar polygons"""
+    cands = [i for i, f in enumerate(ph[2]) if len(f) >= 4]
+    if not cands:
+        return None
+    i = rng.choice(cands)
+    f = list(ph[2][i])
+    m = len(f)
+    j = rng.randrange(2, m - 1)
+    f1, f2 = tuple(f[:j + 1]), tuple([f[0]] + f[j:])
+    faces = list(ph[2][:i]) + [f1, f2] + list(ph[2][i + 1:])
+    return ("PH", ph[1], tuple(faces))
+
+
 def int_box(rng, lo=-3, hi=2):
     """axis-aligned box with small integer corners (coordinates -1 / -2 included on purpose:
     CPython hashes -1.0 and -2.0 alike, the one small-number hash collision there is)"""
@@ -625,6 +676,10 @@ def body_pair(rng, ka, kb, small=True):
         mk = lambda k: int_box(rng) if k == "PH" else int_rect(rng)
         return (mk(ka), mk(kb)), "small-integer-boxes"
     a = rand_obj(rng, ka, small)
+    if ka == "PH" and rng.random() < 0.06:
+        b = bounding_sphere_contact(rng, a, kb)
+        if b is not None:
+            return (a, b), "bounding-spheres-tangent-at-common-vertex"
     if ka == "PH" and kb == "PH" and rng.random() < 0.08:
         b = edge_cross_contact(rng, a)
         if b is not None:
